@@ -168,6 +168,12 @@ class C07(F.Check):
             [scaled(g["length"][0], 3, 7), scaled(g["length"][0], 5, 14), scaled(g["length"][2], 1, 3)],
             [g["dimensionless"][0], g["dimensionless"][1], g["dimensionless"][3]],
             [g["mass"][1], g["mass"][2], g["mass"][3]],
+            # integer, jointly coprime multiples of a magnitude-1 base unit together with ONE rational multiple: the gcd of integers is 1, the
+            # common unit must still pick up the denominator
+            [scaled(g["length"][0], 5, 2), scaled(g["length"][0], 2, 1), scaled(g["length"][0], 3, 1)],
+            [scaled(g["time"][0], 3, 1), scaled(g["time"][0], 7, 3), scaled(g["time"][0], 5, 1)],
+            [scaled(g["length"][0], 2, 1), scaled(g["length"][0], 3, 1), scaled(g["length"][0], 5, 1), scaled(g["length"][0], 7, 4)],
+            [g["length"][0], scaled(g["length"][0], 3, 1), scaled(g["length"][0], 1, 8)],
         ]
         lists = [("fixed", x) for x in fixed]
         names = sorted(g)
